@@ -12,3 +12,226 @@ def generate(crate, verif, dst, repo):
     if g is None:
         return {}
     return g(verif, dst, repo)
+
+
+# ------------------------------------------------------------------------------------------------
+# helpers
+# ------------------------------------------------------------------------------------------------
+
+def strip_test_modules(text):
+    """drop `#[cfg(test)] mod xyz { ... }` blocks (brace matched): `cargo kani playback` builds in test mode"""
+    out = []
+    i = 0
+    pat = re.compile(r"#\[cfg\(test\)\]\s*\n\s*(?:pub(?:\([a-z]+\))? )?mod \w+ \{")
+    while True:
+        m = pat.search(text, i)
+        if not m:
+            out.append(text[i:])
+            break
+        out.append(text[i:m.start()])
+        j = match_brace(text, m.end() - 1)
+        i = j + 1
+    return "".join(out)
+
+
+def match_brace(text, open_idx):
+    """index of the brace closing text[open_idx] == '{' (skips strings, chars, comments)"""
+    assert text[open_idx] == "{"
+    depth = 0
+    i = open_idx
+    n = len(text)
+    while i < n:
+        c = text[i]
+        if c == "/" and text.startswith("//", i):
+            i = text.index("\n", i) if "\n" in text[i:] else n
+            continue
+        if c == "/" and text.startswith("/*", i):
+            i = text.index("*/", i) + 2
+            continue
+        if c == '"':
+            i += 1
+            while text[i] != '"':
+                i += 2 if text[i] == "\\" else 1
+            i += 1
+            continue
+        if c == "r" and re.match(r'r#*"', text[i:]):
+            m = re.match(r'r(#*)"', text[i:])
+            end = text.index('"' + m.group(1), i + len(m.group(0)))
+            i = end + 1 + len(m.group(1))
+            continue
+        if c == "'":
+            m = re.match(r"'(\\.[^']*|[^'\\])'", text[i:])
+            if m:
+                i += len(m.group(0))
+                continue
+        if c == "{":
+            depth += 1
+        elif c == "}":
+            depth -= 1
+            if depth == 0:
+                return i
+        i += 1
+    raise GenError("unbalanced braces")
+
+
+def slice_item(text, header_regex, what):
+    """source text of the item whose header matches header_regex (up to and including its brace-matched body);
+    includes the attribute / doc lines directly above it"""
+    ms = list(re.finditer(header_regex, text, re.M))
+    if len(ms) != 1:
+        raise GenError(f"slice '{what}': expected exactly one match of /{header_regex}/, found {len(ms)}")
+    m = ms[0]
+    start = m.start()
+    # include preceding attributes / doc comments
+    lines_before = text[:start].split("\n")
+    k = len(lines_before) - 1  # index of the (partial) line where the match starts
+    while k - 1 >= 0 and re.match(r"\s*(#\[|///|//!)", lines_before[k - 1]):
+        k -= 1
+    start = len("\n".join(lines_before[:k])) + (1 if k > 0 else 0)
+    brace = text.index("{", m.end() - 1)
+    end = match_brace(text, brace)
+    line_no = text[:m.start()].count("\n") + 1
+    return text[start:end + 1], line_no
+
+
+def write_if_changed(path, content):
+    os.makedirs(os.path.dirname(path), exist_ok=True)
+    if os.path.exists(path) and open(path).read() == content:
+        return
+    with open(path, "w") as f:
+        f.write(content)
+
+
+def subst_once(text, old, new, fname):
+    if text.count(old) != 1:
+        raise GenError(f"{fname}: expected exactly one line `{old}`, found {text.count(old)}")
+    return text.replace(old, new)
+
+
+# ------------------------------------------------------------------------------------------------
+# mproto: mirror of wtransport-proto
+# ------------------------------------------------------------------------------------------------
+
+def gen_mproto(verif, dst, repo):
+    src_root = os.path.join(repo, "wtransport-proto", "src")
+    gen_root = os.path.join(dst, "src", "gen")
+    files = []
+    for root, _, fs in os.walk(src_root):
+        for f in fs:
+            if f.endswith(".rs") and f != "lib.rs":
+                files.append(os.path.relpath(os.path.join(root, f), src_root))
+    subs = {
+        "qpack.rs": [("use std::collections::HashMap;", "use crate::model_map::HashMap;")],
+        "headers.rs": [("use std::collections::HashMap;", "use crate::model_map::HashMap;")],
+        "settings.rs": [("use std::collections::HashMap;", "use crate::model_map::HashMap;"),
+                        ("use std::collections::hash_map;", "use crate::model_map::hash_map;")],
+    }
+    for rel in sorted(files):
+        text = open(os.path.join(src_root, rel)).read()
+        text = strip_test_modules(text)
+        for old, new in subs.get(rel, []):
+            text = subst_once(text, old, new, rel)
+        if "std::collections::HashMap" in text or "std::collections::hash_map" in text:
+            raise GenError(f"{rel}: unexpected remaining std HashMap use")
+        write_if_changed(os.path.join(gen_root, rel), text)
+    # remove stale generated files
+    for root, _, fs in os.walk(gen_root):
+        for f in fs:
+            rel = os.path.relpath(os.path.join(root, f), gen_root)
+            if rel not in files:
+                os.remove(os.path.join(root, f))
+    return {
+        "rehosted": [f"wtransport-proto/src/{f}" for f in sorted(files)],
+        "substitutions": {k: [o for o, _ in v] for k, v in subs.items()},
+        "models": ["model_map::HashMap (fixed-capacity association list, CAP=6, insertion beyond CAP assumed away)",
+                   "models/httlib-huffman (invertible run-length model coder; real Huffman tables outside the claim)"],
+    }
+
+
+GENERATORS["mproto"] = gen_mproto
+
+
+# ------------------------------------------------------------------------------------------------
+# mdrv: driver units of the wtransport crate
+# ------------------------------------------------------------------------------------------------
+
+def slice_all(text, header_regex, what, expect):
+    ms = list(re.finditer(header_regex, text, re.M))
+    if len(ms) != expect:
+        raise GenError(f"slice '{what}': expected {expect} matches of /{header_regex}/, found {len(ms)}")
+    out = []
+    for m in ms:
+        lines_before = text[:m.start()].split("\n")
+        k = len(lines_before) - 1
+        while k - 1 >= 0 and re.match(r"\s*(#\[|///|//!)", lines_before[k - 1]):
+            k -= 1
+        start = len("\n".join(lines_before[:k])) + (1 if k > 0 else 0)
+        brace = text.index("{", m.end() - 1)
+        end = match_brace(text, brace)
+        out.append((text[start:end + 1], text[:m.start()].count("\n") + 1))
+    return out
+
+
+def gen_mdrv(verif, dst, repo):
+    w = os.path.join(repo, "wtransport", "src")
+    gen_root = os.path.join(dst, "src", "gen")
+    sliced = {}
+
+    def rd(rel):
+        return open(os.path.join(w, rel)).read()
+
+    err = rd("error.rs")
+    items = []
+    for rx, what in [(r"^pub struct ApplicationClose \{", "ApplicationClose"),
+                     (r"^impl ApplicationClose \{", "impl ApplicationClose"),
+                     (r"^pub enum StreamWriteError \{", "StreamWriteError")]:
+        t, ln = slice_item(err, rx, what)
+        items.append(t)
+        sliced[f"wtransport/src/error.rs:{ln} {what}"] = len(t)
+    write_if_changed(os.path.join(gen_root, "error_items.rs"), "\n\n".join(items) + "\n")
+
+    drv = rd("driver/mod.rs")
+    t, ln = slice_item(drv, r"^pub enum DriverError \{", "DriverError")
+    sliced[f"wtransport/src/driver/mod.rs:{ln} DriverError"] = len(t)
+    write_if_changed(os.path.join(gen_root, "driver_error.rs"), t + "\n")
+
+    # the close-code match at the end of Worker::run: an expression, sliced from `match &error {` inside `pub async fn run(mut self)`
+    run_fn, run_ln = slice_item(drv, r"^        pub async fn run\(mut self\)", "Worker::run")
+    ms = list(re.finditer(r"match &error \{", run_fn))
+    if len(ms) != 1:
+        raise GenError("Worker::run: expected exactly one `match &error {`")
+    end = match_brace(run_fn, ms[0].end() - 1)
+    expr = run_fn[ms[0].start():end + 1]
+    if "self.quic_connection" not in expr or ".await" in expr:
+        raise GenError("Worker::run close match has an unexpected shape")
+    sliced[f"wtransport/src/driver/mod.rs:{run_ln} Worker::run close-code match"] = len(expr)
+    write_if_changed(os.path.join(gen_root, "worker_close_match.rs"), "{ let error = error; " + expr + " }\n")
+
+    utils = rd("driver/utils.rs")
+    t, ln = slice_item(utils, r"^pub fn varint_w2q\(", "varint_w2q")
+    sliced[f"wtransport/src/driver/utils.rs:{ln} varint_w2q"] = len(t)
+    write_if_changed(os.path.join(gen_root, "utils_items.rs"), t + "\n")
+
+    conn = rd("connection.rs")
+    t, ln = slice_item(conn, r"^    pub fn max_datagram_size\(&self\)", "Connection::max_datagram_size")
+    sliced[f"wtransport/src/connection.rs:{ln} Connection::max_datagram_size"] = len(t)
+    write_if_changed(os.path.join(gen_root, "max_datagram_size.rs"), "impl Connection {\n" + t + "\n}\n")
+
+    cfg = rd("config.rs")
+    two = slice_all(cfg, r"^    pub fn max_idle_timeout\(", "max_idle_timeout", 2)
+    for (t, ln), name in zip(two, ["server", "client"]):
+        sliced[f"wtransport/src/config.rs:{ln} max_idle_timeout ({name})"] = len(t)
+        write_if_changed(os.path.join(gen_root, f"max_idle_timeout_{name}.rs"),
+                         "impl %sBuilder {\n" % name.capitalize() + t + "\n}\n")
+
+    return {
+        "rehosted": ["wtransport/src/driver/streams/connect.rs", "wtransport/src/driver/streams/settings.rs", "wtransport/src/datagram.rs"],
+        "sliced": sliced,
+        "models": ["models/tracing (no-op macros)", "models/tokio (sync::watch as a shared cell)",
+                   "kani/mdrv/src/models_local/streams.rs (scripted StreamSession / StreamUniRemoteH3 / StreamUniLocalH3)",
+                   "slices.rs ModelQuicConnection (max_datagram_size: any Option<usize>; close() recorded), ModelTransportConfig (records max_idle_timeout)",
+                   "wtransport-proto = mproto mirror (model map, model Huffman)"],
+    }
+
+
+GENERATORS["mdrv"] = gen_mdrv
